@@ -70,19 +70,25 @@ def main():
         for seed, out in ex.map(lambda j: evaluate(j[0], j[1], args.tier), jobs):
             results[seed] = out
             print(seed, json.dumps(out)[:300], flush=True)
-    lines = ['# Seeded changes vs. the registered checks', '',
-             f'(tier {args.tier}; produced by tools/seed_eval.py; each change applied to a scratch worktree, checks run with HPOTK_REPO pointing at it)', '',
-             '| seed | breaks | detected by | how it was reported |', '|---|---|---|---|']
     for s in seeds:
         meta_p = os.path.join(SEEDED, s, 'meta.json')
         meta = json.load(open(meta_p))
         out = results.get(s, {})
-        det = [p for p, r in out.items() if isinstance(r, dict) and r.get('violations')]
-        meta['detected_by'] = det
+        meta['detected_by'] = [p for p, r in out.items() if isinstance(r, dict) and r.get('violations')]
         meta['detection_detail'] = out
+        meta['evaluated_tier'] = args.tier
         json.dump(meta, open(meta_p, 'w'), indent=1)
+    # the table always lists every seed, from the stored results of its latest evaluation
+    lines = ['# Seeded changes vs. the registered checks', '',
+             '(produced by tools/seed_eval.py; each change applied to a scratch worktree, checks run with HPOTK_REPO pointing at it; '
+             'a row shows the latest evaluation of that seed)', '',
+             '| seed | breaks | detected by | how it was reported |', '|---|---|---|---|']
+    for s in sorted(x for x in os.listdir(SEEDED) if os.path.isdir(os.path.join(SEEDED, x))):
+        meta = json.load(open(os.path.join(SEEDED, s, 'meta.json')))
+        out = meta.get('detection_detail', {})
+        det = meta.get('detected_by', [])
         how = '; '.join(f'{p}: {", ".join(r["what"][:2])}' for p, r in out.items() if isinstance(r, dict) and r.get('violations'))
-        lines.append(f'| {s} | {meta["breaks_property"]} | {", ".join(det) or "**MISSED**"} | {how[:160]} |')
+        lines.append(f'| {s} | {meta["breaks_property"]} | {", ".join(det) or ("**MISSED**" if out else "not evaluated")} | {how[:160]} |')
     open(os.path.join(SEEDED, 'RESULTS.md'), 'w').write('\n'.join(lines) + '\n')
     missed = [s for s in seeds if not results.get(s) or not any(isinstance(r, dict) and r.get('violations') for r in results[s].values())]
     print('missed:', missed)
